@@ -766,6 +766,14 @@ async fn probe_storage(input: &Value) {
 		let fill = op["fill"].as_u64().unwrap_or(65) as u8;
 		let data = vec![fill; len];
 		let t = op["type"].as_str().unwrap_or_default().to_string();
+		if op["external"].as_bool() == Some(true) {
+			// not a write of the daemon: somebody else replaces what the file holds
+			// (a restored backup, a deployment tool) between two writes
+			let p = crate::storage::verif_path(&fm, &t).unwrap_or_default();
+			let r = std::fs::write(&p, &data);
+			res.push(json!({"ok": r.is_ok(), "external": true, "type": t, "len": len, "fill": fill, "path": p, "seen": observe_file(&p)}));
+			continue;
+		}
 		let r = crate::storage::verif_write(&fm, &t, &data).await;
 		res.push(match r {
 			Ok(p) => {
